@@ -5,6 +5,7 @@ import (
 	"encoding/hex"
 	"fmt"
 	"net"
+	"reflect"
 	"strings"
 	"time"
 
@@ -57,7 +58,10 @@ type Attempt struct {
 	Msg         message.Message
 	Replied     bool
 	ReplyRaw    []byte
-	Dropped     bool // the connection died before/without a reply
+	Dropped     bool // the connection died before/without a reply (or before the proxy read it)
+	ReplyLost   bool // the reply was written but never read by the proxy
+	ReplyEnd    int64
+	lostChecked bool
 }
 
 // ---------------------------------------------------------------- nodes
@@ -404,7 +408,7 @@ func (c *BackendConn) applyOutcome(out Outcome, stream int16, att *Attempt, tok 
 	switch out.Kind {
 	case OutError:
 		w.Stat("backend.err." + out.Name)
-		c.reply(stream, out.Err, att, "ERROR("+out.Name+") "+tok)
+		c.reply(stream, withToken(out.Err, tok), att, "ERROR("+out.Name+") "+tok)
 	case OutSilentDrop:
 		w.Stat("backend.silent_drop")
 		w.hold(&heldReply{conn: c, att: att, desc: "DROP-AFTER-SILENCE " + tok, drop: true})
@@ -413,6 +417,19 @@ func (c *BackendConn) applyOutcome(out Outcome, stream int16, att *Attempt, tok 
 		att.Dropped = true
 		c.Reset("scripted drop for " + tok)
 	}
+}
+
+// withToken returns a copy of the error whose message ends with the request token, so that
+// a client can tell which request an error frame answers (C02).
+func withToken(e message.Error, tok string) message.Message {
+	cp := e.DeepCopyMessage()
+	v := reflect.ValueOf(cp)
+	if v.Kind() == reflect.Ptr {
+		if f := v.Elem().FieldByName("ErrorMessage"); f.IsValid() && f.CanSet() && f.Kind() == reflect.String {
+			f.SetString(f.String() + " " + tok)
+		}
+	}
+	return cp
 }
 
 // ---------------------------------------------------------------- system tables
